@@ -251,7 +251,7 @@ CReb == <<StJ("", "k0", <<StW("", "size")>>)>>                                  
         \o <<StI("", "_load_rebuilt", <<StD("", "Nxxtop"), StD("", "_load_rebuilt")>>)>>    \* :401-434
 CLin == CReb \o <<StR("", "Nxxtop"), StR("", "plyts"), StR("", "laminaprops"), StD("", "lam"), StD("", "F"),
                   StD("", "kG0"), StR("", "excluded_dofs"), StD("", "k0"), StD("", "k0uk"), StD("", "k0uu")>>   \* :640-782
-CFullC == <<StW("", "size"), StP("", "excluded_dofs")>>                                   \* calc_full_c :606-618 (full-size c)
+CFullC == <<StW("", "size"), StP("", "excluded_dofs"), StR("", "model"), StP("", "tLArad")>>                                   \* calc_full_c :606-618 (full-size c)
 ConeScript(m) ==
     CASE m = "calc_k0"   -> <<StC("", "k0uu", {}, "def", CLin)>>                         \* :785-788
       [] m = "calc_kT"   -> CFullC \o <<StI("", "k0", CLin)>>
